@@ -85,15 +85,37 @@ def check(ctx):
             ok = 'BacktestDataHandler.get_asset_latest_ask_price' in pe.callee and pe.args.get('dt') == V('dt') and pe.args.get('asset_symbol') == asset
             ctx.require(ok, 'C11.S2', 'the sizing price is the latest ask of that asset at dt', pe.site, key='C11.S2|price')
             after = T.t_sub(alloc, fe.result)
-            sign = None
+            # sign domain of the after-cost dollars on this path: every test on them (x < 0, 0 <= x, x == 0, sign(x) == k) removes the signs it excludes
+            signs = {'neg', 'zero', 'pos'}
+            tested = False
+            sgn = ('call', ('ext', 'SIGN'), (after,), ())
             for c, v, _ in bp.conds:
-                if c[0] == 'cmp' and c[1] in ('<=', '<') and ZERO in (c[2], c[3]):
-                    other = c[3] if c[2] == ZERO else c[2]
-                    if T.teq(other, after):
-                        if c[2] == ZERO:
-                            sign = ('>=' if c[1] == '<=' else '>') if v else ('<' if c[1] == '<=' else '<=')
-                        else:
-                            sign = ('<=' if c[1] == '<=' else '<') if v else ('>' if c[1] == '<=' else '>=')
+                if c[0] != 'cmp':
+                    continue
+                a_, b_ = c[2], c[3]
+                sel = None
+                if c[1] in ('<', '<=') and b_ != ZERO and a_ == ZERO and T.teq(b_, after):
+                    sel = {'pos'} if c[1] == '<' else {'zero', 'pos'}             # 0 < x , 0 <= x
+                elif c[1] in ('<', '<=') and b_ == ZERO and T.teq(a_, after):
+                    sel = {'neg'} if c[1] == '<' else {'neg', 'zero'}             # x < 0 , x <= 0
+                elif c[1] == '==' and ((b_ == ZERO and T.teq(a_, after)) or (a_ == ZERO and T.teq(b_, after))):
+                    sel = {'zero'}
+                elif c[1] == '==' and ((a_[0] == 'num' and T.teq(b_, sgn)) or (b_[0] == 'num' and T.teq(a_, sgn))):
+                    k_ = a_[1] if a_[0] == 'num' else b_[1]
+                    sel = {'pos'} if k_ == 1 else ({'neg'} if k_ == -1 else ({'zero'} if k_ == 0 else set()))
+                elif c[1] in ('<', '<=') and ((a_[0] == 'num' and T.teq(b_, sgn)) or (b_[0] == 'num' and T.teq(a_, sgn))) and ZERO in (a_, b_):
+                    if a_ == ZERO:
+                        sel = {'pos'} if c[1] == '<' else {'zero', 'pos'}
+                    else:
+                        sel = {'neg'} if c[1] == '<' else {'neg', 'zero'}
+                if sel is not None:
+                    tested = True
+                    signs &= sel if v else ({'neg', 'zero', 'pos'} - sel)
+            sign = None
+            if tested:
+                sign = {frozenset({'pos'}): '>', frozenset({'zero', 'pos'}): '>=', frozenset({'neg'}): '<', frozenset({'neg', 'zero'}): '<=', frozenset({'zero'}): '=='}.get(frozenset(signs))
+                if not signs:
+                    continue            # no ordered number reaches this path (only an unordered NaN would): nothing to round
             if not call_is(q, 'INT') or len(q[2]) != 1:
                 ctx.violation('C11.S2', 'the quantity is a whole number (int)', fe.site, fmt(q)[:80], key='C11.S2|int')
                 continue
@@ -106,13 +128,14 @@ def check(ctx):
                 ctx.violation('C11.S2', 'quantity = int(trunc(after-cost dollars) / price): the dollar amount is truncated toward zero first', fe.site,
                               'quantity is %s' % fmt(q)[:240], key='C11.S2|formula')
                 continue
-            kinds[sign] = found
+            for s_ in (signs if tested else ('neg', 'zero', 'pos')):
+                kinds.setdefault(s_, set()).add(found)
             if found == 'TRUNC':
                 continue
-            okk = (found == 'FLOOR' and sign in ('>=', '>')) or (found == 'CEIL' and sign in ('<', '<='))
+            okk = tested and ((found == 'FLOOR' and signs <= {'zero', 'pos'}) or (found == 'CEIL' and signs <= {'neg', 'zero'}))
             ctx.require(okk, 'C11.S2', 'after-cost dollars are truncated toward zero: floor when >= 0, ceil when < 0 [%s]' % tag, fe.site,
                         '%s applied when after-cost dollars %s 0' % (found, sign if sign else 'of either sign (no sign test on this path)'), key='C11.S2|toward-zero')
-        ok = set(kinds.values()) == {'TRUNC'} or (kinds.get('>=') == 'FLOOR' and kinds.get('<') == 'CEIL')
+        ok = bool(kinds.get('pos')) and kinds.get('pos') <= {'FLOOR', 'TRUNC'} and bool(kinds.get('neg')) and kinds.get('neg') <= {'CEIL', 'TRUNC'}
         ctx.require(ok, 'C11.S2', 'both signs are covered: >= 0 floors, < 0 ceils', lp.site, str(kinds), key='C11.S2|both-signs')
         ctx.sample({'rule': 'C11.S2', 'path': cond_str(p)[:80], 'truncation': {str(k): v for k, v in kinds.items()}})
         # NaN guard
